@@ -33,7 +33,15 @@ Definition event := (list string * list (string * string))%type.
 
 Record world := { heap : list obj; cells : list (option value); trace : list event }.
 
-Definition empty_world : world := {| heap := []; cells := []; trace := [] |}.
+(* A frozen object is modelled as one with a permanent iterator: every operation that
+   would mutate it fails, exactly like a container that is being iterated (both are
+   "may not be mutated now"; error messages are not compared). *)
+Definition frozen_mark : nat := 64 * 64.
+
+(* the world in which a module starts: the two frozen containers that the host's
+   module "m.star" exports (a frozen list at address 0, a frozen dict at address 1) *)
+Definition empty_world : world :=
+  {| heap := [OList [VInt 1; VInt 2] frozen_mark; ODict [(VStr "k", VInt 1)] frozen_mark]; cells := []; trace := [] |}.
 
 (* result of a primitive: value, dynamic error, or outside the modelled library *)
 Inductive pres (A : Type) := POk (a : A) | PErr | PUnsup (tag : string).
@@ -222,6 +230,13 @@ Fixpoint dict_put (w : world) (k v : value) (kvs : list (value * value)) : pres 
 Definition need_hashable {A} (k : value) (f : pres A) : pres A :=
   match hashable k with POk true => f | POk false => PErr | PErr => PErr | PUnsup t => PUnsup t end.
 
+(* insert every entry of ys into xs (later values win, first positions are kept) *)
+Fixpoint dict_add_all (w : world) (ys xs : list (value * value)) : pres (list (value * value)) :=
+  match ys with
+  | [] => POk xs
+  | (k, v) :: r => plet xs' <- dict_put w k v xs; dict_add_all w r xs'
+  end.
+
 (* ---------------------------------------------------------------- rendering *)
 Definition zstr (z : Z) : string := NilZero.string_of_int (Z.to_int z).
 
@@ -394,7 +409,11 @@ Definition binary (o : binop) (x y : value) (w : world) : pres (value * world) :
   | BitAnd => match x, y with VInt a, VInt b => ok (VInt (Z.land a b)) | _, _ => PErr end
   | BitOr => match x, y with
              | VInt a, VInt b => ok (VInt (Z.lor a b))
-             | VRef _, VRef _ => PUnsup "dict-union"
+             | VRef a, VRef b =>
+                 match get_obj w a, get_obj w b with
+                 | Some (ODict xs _), Some (ODict ys _) =>
+                     plet r <- dict_add_all w ys xs; POk (alloc_dict r w)
+                 | _, _ => PErr end
              | _, _ => PErr end
   | BitXor => match x, y with VInt a, VInt b => ok (VInt (Z.lxor a b)) | _, _ => PErr end
   | Shl => match x, y with
@@ -902,7 +921,7 @@ Fixpoint assoc_set {A} (x : string) (a : A) (l : list (string * A)) : list (stri
 
 (* the module a load statement can name in this property's harness *)
 Definition load_module (m : string) : option (list (string * value)) :=
-  if String.eqb m "m.star" then Some [("a", VInt 10); ("b", VStr "bee")] else None.
+  if String.eqb m "m.star" then Some [("a", VInt 10); ("b", VStr "bee"); ("fl", VRef 0); ("fd", VRef 1)] else None.
 
 Fixpoint kw_of_dict (kvs : list (value * value)) : option (list (string * value)) :=
   match kvs with
@@ -925,8 +944,19 @@ Definition starstar_args (ss : option value) (w : world) : pres (list (string * 
   end.
 
 (* x |= y *)
+(* dict |= dict updates the left dict in place: an attempt to update it, which fails when the
+   dict may not be mutated (frozen or being iterated) WHATEVER the right operand contains *)
 Definition inplace_pipe (x y : value) (w : world) : pres (value * world) :=
-  match x, y with VRef _, VRef _ => PUnsup "dict-union" | _, _ => binary BitOr x y w end.
+  match x, y with
+  | VRef a, VRef b =>
+      match get_obj w a, get_obj w b with
+      | Some (ODict xs n), Some (ODict ys _) =>
+          if negb (Nat.eqb n 0) then PErr
+          else plet r <- dict_add_all w ys xs; POk (x, put_obj w a (ODict r n))
+      | _, _ => binary BitOr x y w
+      end
+  | _, _ => binary BitOr x y w
+  end.
 
 (* ---------------------------------------------------------------- what a host can see *)
 Inductive verdict :=
